@@ -45,6 +45,7 @@ type Exec struct {
 	abstracted  map[string]bool // callees abstracted (havoc)
 	inlined     map[string]bool
 	usedContr   map[string]bool
+	pointSetHit map[int]bool
 	assertHit   map[int]bool    // program-point assertions of the top contract that met their call
 	assumedTerm map[string]bool // callees under contract assumed to terminate (no `terminates` of their own)
 	budget      int
